@@ -993,6 +993,107 @@ fn step_bounds() -> Option<String> {
     None
 }
 
+/// C19: ModifiedSolution in the INITIAL callback: the run continues from the written state with everything refreshed -- for a linear
+/// homogeneous problem with atol = 0, scaling the state by 2^20 there gives the run started from the scaled state
+fn initial_modified_solution() -> Option<String> {
+    use ivp::methods::{BDF, DOP853, DOPRI5, RADAU, RK23};
+    use ivp::solout::SolOut;
+    struct Lin;
+    impl IVP for Lin {
+        fn ode(&self, _t: f64, y: &[f64], d: &mut [f64]) { d[0] = -y[0] + 0.5 * y[1]; d[1] = 0.25 * y[0] - 2.0 * y[1]; }
+        fn jac(&self, _t: f64, _y: &[f64], j: &mut ivp::matrix::Matrix) { j[(0, 0)] = -1.0; j[(0, 1)] = 0.5; j[(1, 0)] = 0.25; j[(1, 1)] = -2.0; }
+    }
+    struct Rec { fac: f64, n: usize, log: Vec<(f64, f64, Vec<f64>)> }
+    impl SolOut for Rec {
+        fn solout(&mut self, xold: f64, x: &mut f64, y: &mut [f64], _i: Option<&StepInterpolant<'_>>) -> ControlFlag {
+            self.n += 1;
+            if self.n == 1 && self.fac != 1.0 { for v in y.iter_mut() { *v *= self.fac; } self.log.push((xold, *x, y.to_vec())); return ControlFlag::ModifiedSolution; }
+            self.log.push((xold, *x, y.to_vec()));
+            ControlFlag::Continue
+        }
+    }
+    let big = 1048576.0;
+    let run = |name: &str, y0: [f64; 2], fac: f64, fs: f64| -> Vec<(f64, f64, Vec<f64>)> {
+        let mut r = Rec { fac, n: 0, log: Vec::new() };
+        let (rt, at0): (ivp::methods::Tolerance, ivp::methods::Tolerance) = (1e-6.into(), 0.0.into());
+        match name {
+            "RADAU" => { let _ = RADAU::builder().first_step(fs).build().solve(&Lin, 0.0, &y0, 2.0, rt, at0, Some(&mut r)); }
+            "BDF" => { let _ = BDF::builder().first_step(fs).build().solve(&Lin, 0.0, &y0, 2.0, rt, at0, Some(&mut r)); }
+            "DOPRI5" => { let _ = DOPRI5::builder().first_step(fs).build().solve(&Lin, 0.0, &y0, 2.0, rt, at0, Some(&mut r)); }
+            "DOP853" => { let _ = DOP853::builder().first_step(fs).build().solve(&Lin, 0.0, &y0, 2.0, rt, at0, Some(&mut r)); }
+            _ => { let _ = RK23::builder().first_step(fs).build().solve(&Lin, 0.0, &y0, 2.0, rt, at0, Some(&mut r)); }
+        }
+        r.log
+    };
+    for name in ["RK23", "DOPRI5", "DOP853", "RADAU", "BDF"] {
+        for fs in [0.05, 0.2] {
+            let a = run(name, [1.0, 1.0], big, fs);
+            let b = run(name, [big, big], 1.0, fs);
+            let implicit = name == "RADAU" || name == "BDF";
+            if implicit {
+                // the Newton iteration and its stopping test are not exactly scale-invariant: compare the step counts
+                if (a.len() as i64 - b.len() as i64).abs() > 2 {
+                    return Some(format!("{}: the initial callback scales the state by 2^20 (ModifiedSolution, atol = 0, linear homogeneous problem, first_step {}): {} accepted steps; started from the scaled state: {}; second callback reports [{:e}, {:e}] against [{:e}, {:e}]", name, fs, a.len() - 1, b.len() - 1, a.get(1).map_or(0.0, |r| r.0), a.get(1).map_or(0.0, |r| r.1), b.get(1).map_or(0.0, |r| r.0), b.get(1).map_or(0.0, |r| r.1)));
+                }
+            } else if a != b {
+                let k = (0..a.len().min(b.len())).find(|&k| a[k] != b[k]).unwrap_or(a.len().min(b.len()));
+                return Some(format!("{}: the initial callback scales the state by 2^20 (ModifiedSolution, atol = 0, first_step {}): the run differs from the run started at the scaled state at callback {} ({} vs {} callbacks)", name, fs, k + 1, a.len(), b.len()));
+            }
+        }
+    }
+    None
+}
+
+/// C09: several event functions crossing inside one accepted step, the higher-indexed one first: each sign change is reported exactly once
+fn events_order_independent() -> Option<String> {
+    struct Ev { cs: Vec<f64> }
+    impl IVP for Ev {
+        fn ode(&self, _t: f64, y: &[f64], d: &mut [f64]) { d[0] = -0.5 * y[0]; }
+        fn n_events(&self) -> usize { self.cs.len() }
+        fn events(&self, t: f64, _y: &[f64], out: &mut [f64]) { for (k, c) in self.cs.iter().enumerate() { out[k] = t - c; } }
+    }
+    for m in [Method::RK4, Method::RK23, Method::DOPRI5, Method::DOP853, Method::RADAU, Method::BDF] {
+        for &(x0, xe) in &[(0.0f64, 3.0f64), (3.0, 0.0)] {
+            for cs in [vec![1.2345, 1.2335], vec![1.2335, 1.2345], vec![2.0, 1.9, 1.95]] {
+                let s = match solve_ivp(&Ev { cs: cs.clone() }, x0, xe, &[1.0], Options::builder().method(m.clone()).first_step(0.3 * (xe - x0).signum()).build()) { Ok(s) => s, Err(e) => return Some(format!("{:?}: {:?}", m, e)) };
+                for (k, c) in cs.iter().enumerate() {
+                    let te = &s.t_events[k];
+                    if te.len() != 1 || (te[0] - c).abs() > 1e-8 {
+                        return Some(format!("{:?} on [{}, {}] with event functions t - c, c = {:?}: event {} (root {}) is reported at {:?}", m, x0, xe, cs, k, c, te));
+                    }
+                }
+            }
+        }
+    }
+    None
+}
+
+mod sparsity_fns { #![allow(dead_code, unused)] include!(concat!(env!("OUT_DIR"), "/sparsity_fns.rs")); }
+
+/// C20 (sparsity clause): the column grouping used for grouped finite differences never puts two columns that share a row into one
+/// group, and numbers the groups 0..n_groups. `group_columns` is extracted textually from src/python/sparsity.rs by build.rs.
+fn sparsity_groups() -> Option<String> {
+    let mut seed = 0x2545F4914F6CDD1Du64;
+    let mut rnd = move || { seed ^= seed << 13; seed ^= seed >> 7; seed ^= seed << 17; seed };
+    let mut cases: Vec<(usize, Vec<Vec<usize>>)> = Vec::new();
+    for n in [3usize, 5, 8] {   // banded patterns
+        for bw in 1..3usize { cases.push((n, (0..n).map(|c| (c.saturating_sub(bw)..(c + bw + 1).min(n)).collect()).collect())); }
+    }
+    // a founder plus two later columns that are row-disjoint from it but share a row with each other
+    cases.push((4, vec![vec![0], vec![1, 2], vec![2, 3], vec![3]]));
+    for _ in 0..300 { let n = 2 + (rnd() % 7) as usize; cases.push((n, (0..n).map(|_| (0..n).filter(|_| rnd() % 3 == 0).collect()).collect())); }
+    for (n, c2r) in cases {
+        let (groups, ng) = sparsity_fns::group_columns(&c2r, n);
+        if groups.len() != n || groups.iter().any(|g| *g >= ng) { return Some(format!("group_columns on the pattern (columns -> rows) {:?}: groups = {:?}, n_groups = {}", c2r, groups, ng)); }
+        for a in 0..n { for b in a + 1..n {
+            if groups[a] == groups[b] && c2r[a].iter().any(|r| c2r[b].contains(r)) {
+                return Some(format!("group_columns on the pattern (columns -> rows) {:?}: columns {} and {} share a row and are both in group {} (groups = {:?})", c2r, a, b, groups[a], groups));
+            }
+        } }
+    }
+    None
+}
+
 fn main() {
     let which = std::env::args().nth(1).unwrap_or_default();
     let r = match which.as_str() {
@@ -1003,6 +1104,9 @@ fn main() {
         "default_mass" => default_mass(),
         "matrix_dense_model" => matrix_dense_model(),
         "lu_small" => lu_small(),
+        "sparsity_groups" => sparsity_groups(),
+        "initial_modified_solution" => initial_modified_solution(),
+        "events_order_independent" => events_order_independent(),
         "step_bounds" => step_bounds(),
         "time_reflection" => time_reflection(),
         "pow2_scaling" => pow2_scaling(),
